@@ -96,6 +96,25 @@ CLAIMED = {
         "restricted to the members of its own scheduler (closed, and minimal: nothing between two members is removed), result True iff every object below was "
         "clean, frame = link sets below self only; recursion measured by height. The polarity defect D12 found by this contract was repaired.",
    note="Assumes the tree axioms L5 (lemmas/Tree.lean) for owner/under/height and the encoding of DESIGN 3.3.", tech=TECH),
+ 'C18': dict(cat='proof', design='6/C18',
+   text="Relational postconditions of bypass_and_remove (exact new member set; exact new requirement relation: a downstream of the removed job gets its "
+        "requirements minus the job plus the job's own requirements, everything else unchanged; stays closed; stays acyclic, by extending a self-supporting "
+        "set of the new graph to one of the old graph), keep_only and keep_only_between (exact kept subset in terms of the least-closed-set results of the "
+        "closure queries, exactly the old requirements among kept jobs, fresh member set object, closed, acyclic), using the contracts of requires, sanitize "
+        "and the closures. Bounded cross-check on all DAGs <= 4 nodes and random operation sequences.",
+   note="Assumes: closed scheduler, the removed job does not require itself, starts/ends are members (as in the statement), tree axioms L5, encoding of "
+        "DESIGN 3.3. 'Precedence among the remaining jobs is unchanged' follows from the relational postcondition by lemma L3 (transitive closure under "
+        "vertex bypass, lemmas/Bypass.lean); the bounded part checks it directly.", tech=TECH),
+ 'C19': dict(cat='proof', design='6/C19',
+   text="Contracts on AbstractJob.requires (recursive, against the spec function `leaves` over arbitrarily nested lists/tuples/sets/Sequences: adds exactly "
+        "the leaves except self, or with remove=True removes exactly them and raises KeyError only then), _add_one_requirement, Sequence._flatten (positional "
+        "spec with an offset ghost), Sequence.__init__ / append / requires (exact chain edges, required= goes to the first job, scheduler registration), "
+        "PureScheduler.update / add / remove. Three defects found by these contracts were repaired. Random programs against a reference model of the documented "
+        "semantics run alongside (bounded).",
+   note="Assumes: argument structures are finitely nested containers of jobs/Sequences/None whose set containers are plain local sets (ghost predicate ARG, "
+        "input validity); two lemmas about the recursively defined offset function (monotone, invertible: lemmas/Offsets.lean); termination of the recursion of "
+        "requires() over the nesting is not proved. AbstractJob.__init__, PureScheduler.__init__ and Scheduler.__init__ are covered by the bounded part only.",
+   tech=TECH),
  'C17': dict(cat='proof', design='6/C17',
    text="Contracts on _backlinks, _neighbours (specialised for the two attribute names), predecessors, successors, "
         "_neighbours_closure, predecessors_upstream, successors_downstream, entry_jobs, exit_jobs. Closures are specified as least "
